@@ -1,0 +1,6 @@
+//go:build !verif
+
+package verifhook
+
+// Yield is a no-op unless the package is built with the "verif" tag.
+func Yield(point string, key any) {}
